@@ -420,11 +420,11 @@ def block_key(repo, fname, sl, el):
     return fname + ': ' + ' '.join(' '.join(l.split()) for l in lines[sl - 1:el] if l.strip())[:300]
 
 
-def unexercised_blocks(pid, cases, log):
+def unexercised_blocks(pid, cases, log, all_blocks=False, files=None):
     """The blocks of the files the property is anchored in that the implementation never executed while answering
     [cases] (Go's block counters, go build -cover).  Returns (list of (location, key), number of blocks) or (None, 0)."""
     import shutil, tempfile
-    files = anchor_files(pid)
+    files = files or anchor_files(pid)
     native = [c for c in cases if c.split(' ')[0] not in WASM_OPS and c.split(' ')[0] not in REST_OPS]
     if not files or not native:
         return None, 0
@@ -450,7 +450,7 @@ def unexercised_blocks(pid, cases, log):
                     loc = (m.group(1), int(m.group(2)), int(m.group(3)))
                     blocks[loc] = blocks.get(loc, 0) + int(m.group(4))
         for (f, sl, el), n in sorted(blocks.items()):
-            if n == 0:
+            if n == 0 or all_blocks:
                 missed.append(('%s:%d' % (f, sl), block_key(REPO, f, sl, el)))
         return missed, len(blocks)
     finally:
@@ -458,7 +458,9 @@ def unexercised_blocks(pid, cases, log):
 
 
 def coverage_baseline(pid):
-    p = os.path.join(ROOT, 'coverage_baseline', pid + '.txt')
+    """texts of all blocks of the library on the unchanged tree (coverage_baseline/all_blocks.txt): an unexecuted block
+    is reported only when its text is not among them, i.e. when it is code the unchanged tree does not have"""
+    p = os.path.join(ROOT, 'coverage_baseline', 'all_blocks.txt')
     return set(l.rstrip('\n') for l in open(p)) if os.path.exists(p) else None
 
 
@@ -810,8 +812,8 @@ def run_check(pid, tier, seed, replay, log, t0):
         if cfg['streams'] or load_corpus(pid):
             stats, diffs, drift = correspondence(pid, cfg['streams'], seed, tier, log, scale=scale)
     # ---- the source tie is broken: the property rests on the correspondence alone, which says nothing about code it
-    #      never ran.  Blocks of the files the property is anchored in that were not executed (and are not among those
-    #      the same run leaves unexecuted on the unchanged tree, coverage_baseline/) are reported.
+    #      never ran.  Blocks of the files the property is anchored in that were not executed and whose text the
+    #      unchanged tree does not have (coverage_baseline/all_blocks.txt) are reported: new code that nothing ran.
     if src_tie and src_tie.get('failed') and st['harness_ok'] and LAST_CASES:
         base = coverage_baseline(pid)
         missed, nblocks = unexercised_blocks(pid, LAST_CASES, log)
